@@ -7,7 +7,14 @@ import LzModel.Config
 import LzModel.Json
 namespace LZ
 
-/-- the literal lists extracted from the Go functions have the shape the named constants assume -/
+/-- `Facts.shapeOK`: the named constants of the configuration functions and of the ParserBuffer
+    methods are derived by RUNNING the Go functions (tools/extract/facts_sem.go), not from the
+    position of their literals, so nothing depends on the order or length of the `L_*` lists any
+    more — except for (a) the functions the interpreter does not cover (`ParserBuffer.ReadFrom`:
+    `chunkSize`, and its uses of the margin), (b) constants that fell back to the positional value
+    (`-- positional fallback: …` in Facts.lean; `shapeOK` then contains the length / content check
+    of the list the position refers to), and (c) consistency of the derived constants with each
+    other (bucket and hash configuration accept the same InputLen range). -/
 theorem facts_shape_ok : Facts.shapeOK = true := by decide
 
 /-- the field list of every configuration type in the model is the Go struct's field list -/
